@@ -14,7 +14,18 @@ from_msgpack + as_string (exactly what the real classes do), topics are matched
 by byte prefix as zmq does, callback exceptions are swallowed and counted as
 the real listener thread does.  The network transports one pending publication
 at a time, chosen by the case's schedule, and stops at a hard bound so that a
-circulating implementation terminates."""
+circulating implementation terminates.
+
+Life-cycle cases (kind 'life'): sequences of connect / round / close events of the
+client (side 0, owner of the session id) and pilots.  Real code driven in
+addition: Session._start_proxy (environment / embedded proxy via _run_proxy),
+Session._connect_proxy, Session.close(); Proxy.__init__ (request table),
+Proxy._register / _worker / _lookup / _unregister / stop.  Replaced: ru.zmq.Client
+(synchronous dispatch into the real Proxy's request table), ru.zmq.Server
+(__init__/start/wait), ru.zmq.PubSub / Queue (in-memory bridges whose stop()
+disposes what they hold), multiprocessing in proxy.py (the worker runs in a
+thread), the component manager (closing it ends the side's components and
+local bridges).  After close() the side's process is considered gone."""
 import itertools
 import os
 import threading
@@ -50,6 +61,34 @@ class Net:
         self.npub = 0
         self.errors = 0
         self.events = []
+        self.dead = set()     # bridges that were stopped (what they held is gone)
+        self.actor = None     # side whose code is running (connect / close)
+        self.made = {}        # side -> [FakeSubscriber] it created
+        self.servers = {}     # address -> request server (the proxy service)
+        self.requests = []    # [side, request] as seen by the proxy service
+        self.count = 0
+
+    def fresh(self):
+        self.count += 1
+        return self.count
+
+    def kill(self, bridge):
+        self.dead.add(bridge)
+        self.pending = [x for x in self.pending if x[0] != bridge]
+
+    def exit_side(self, k):
+        """the process of side k ends: none of its sockets receives any more"""
+        for sub in self.made.get(k, []):
+            sub._stopped = True
+
+    def run_round(self, bound, sched):
+        i = 0
+        while self.pending and i < bound:
+            k = sched[i] if i < len(sched) else 0
+            i += 1
+            bridge, data = self.pending.pop(k % len(self.pending))
+            self.npub += 1
+            self.deliver(bridge, data)
 
     def deliver(self, bridge, data):
         import radical.utils as ru
@@ -105,6 +144,8 @@ class FakePublisher:
         from radical.utils.serialize import to_msgpack
         assert isinstance(topic, str), 'invalid topic type'
         data = ru.as_bytes(topic.replace(' ', '_')) + b' ' + to_msgpack(msg)
+        if self._bridge in NET.dead:           # nobody there any more
+            return
         NET.pending.append((self._bridge, data))
 
 
@@ -117,6 +158,7 @@ class FakeSubscriber:
         self._callbacks = []
         self._stopped = False
         NET.subs.setdefault(self._bridge, []).append(self)
+        NET.made.setdefault(NET.actor, []).append(self)
         for t in ru.as_list(topic):
             self.subscribe(t, cb)
 
@@ -137,6 +179,132 @@ class FakeSubscriber:
 
     def stop(self):
         self._stopped = True
+
+
+
+# ------------------------------------------------------------------------------
+# in-memory stand-ins for the proxy service plumbing (life-cycle cases)
+#
+class FakeBridge:
+    """ru.zmq.PubSub / ru.zmq.Queue: a named bridge of NET; stop() disposes what it holds"""
+
+    def __init__(self, channel, cfg=None, log=None):
+        self._net = NET
+        self._name = '%s.%d' % (channel, NET.fresh())
+
+    def start(self):
+        self._net.subs.setdefault(self._name, [])
+
+    def stop(self):
+        self._net.kill(self._name)
+
+    addr_pub = property(lambda self: 'mem://pub/' + self._name)
+    addr_sub = property(lambda self: 'mem://sub/' + self._name)
+    addr_put = property(lambda self: 'mem://put/' + self._name)
+    addr_get = property(lambda self: 'mem://get/' + self._name)
+
+
+class FakeProcess:
+    """mp.Process for Proxy._register: runs the real Proxy._worker in a thread"""
+
+    def __init__(self, target=None, args=()):
+        self._t = threading.Thread(target=target, args=args, daemon=True)
+
+    def start(self):
+        self._t.start()
+
+    def join(self, timeout=None):
+        self._t.join(10)
+        if self._t.is_alive():
+            raise RuntimeError('proxy worker did not end')
+
+    def terminate(self):
+        pass
+
+
+class NoThread:
+    def __init__(self, *a, **k):
+        self.daemon = True
+
+    def start(self):
+        pass
+
+
+class FakeClient:
+    """ru.zmq.Client: synchronous requests to a server of NET, dispatched like Server._work"""
+
+    def __init__(self, server=None, url=None, log=None):
+        if not url:
+            raise ValueError('need server name/cfg or Url')
+        self._url = url
+        self._closed = False
+
+    url = property(lambda self: self._url)
+
+    def request(self, cmd, *args, **kwargs):
+        if self._closed:
+            raise RuntimeError('client closed')
+        if cmd not in ('register', 'lookup', 'unregister'):
+            raise AssertionError('unexpected proxy request %r' % cmd)
+        NET.requests.append([NET.actor, cmd])
+        srv = NET.servers.get(self._url)
+        if srv is None or srv._term.is_set():
+            raise RuntimeError('ERROR: no proxy service at %s' % self._url)
+        if cmd not in srv._cbs:
+            raise RuntimeError('ERROR: no command %s' % cmd)
+        try:
+            return srv._cbs[cmd](*args, **kwargs)
+        except Exception as e:
+            raise RuntimeError('ERROR: %s' % e)
+
+    def close(self):
+        self._closed = True
+
+
+def _server_init(self, url=None, uid=None, path=None):
+    self._url, self._uid, self._path = url, uid, path or './'
+    self._cbs = {}
+    self._log = self._prof = mock.MagicMock()
+    self._addr = None
+    self._thread = None
+    self._up = threading.Event()
+    self._term = threading.Event()
+
+
+def _server_start(self):
+    self._addr = 'mem://proxy/%d' % NET.fresh()
+    NET.servers[self._addr] = self
+    self._thread = True
+    self._up.set()
+
+
+def _server_wait(self):
+    if self._thread:
+        self._term.wait()
+
+
+class _FakeMP:
+    Queue = staticmethod(lambda: __import__('queue').Queue())
+    Event = staticmethod(threading.Event)
+    Process = FakeProcess
+
+
+class _FakeMT:
+    Lock = staticmethod(threading.Lock)
+    Event = staticmethod(threading.Event)
+    Thread = NoThread
+
+
+class Cmgr:
+    """what the component manager of a side does on close(): its components and local bridges end"""
+
+    def __init__(self, comp, bridges):
+        self.comp, self.bridges = comp, bridges
+
+    def close(self):
+        self.comp.close()
+        for b in self.bridges:
+            NET.kill(b)
 
 
 class Reg(dict):
@@ -166,6 +334,9 @@ class Reg(dict):
         dict.__setitem__(d, k, val)
 
     def dump(self, name=None):
+        pass
+
+    def close(self):
         pass
 
 
@@ -200,35 +371,63 @@ def msg_lit(i, o, f):
     return '(mkmsg %s %s %s)' % (L.nat(i), org_lit(o), fwd_lit(f))
 
 
+def op_lit(op):
+    if op[0] == 'connect':
+        return '(Connect %s)' % L.nat(op[1])
+    if op[0] == 'close':
+        return '(Close %s)' % L.nat(op[1])
+    return '(Round %s %s)' % (L.lst([post_lit(p) for p in op[1]]), L.lst([L.nat(k) for k in op[2]]))
+
+
+def ops_lit(case):
+    return L.lst([op_lit(o) for o in case['ops']])
+
+
+REQ = ['Register', 'Lookup', 'Unregister']
+
+
 class C16(Prop):
     id = 'C16'
     module = 'c16'
     title = 'Client and agents exchange each forwarded message exactly once'
     props_files = ['Props/C16.v']
-    extra_targets = ['Fwd/Oracle.vo']
-    model_targets = ['Fwd/Oracle.vo']
+    extra_targets = ['Fwd/Oracle.vo', 'Fwd/LifeOracle.vo']
+    model_targets = ['Fwd/Oracle.vo', 'Fwd/LifeOracle.vo']
     translators = []
-    header = 'From RP Require Import Fwd.Model Fwd.Oracle.'
-    clauses = ['exactly_once', 'not_back_to_origin', 'unflagged_stays_local', 'no_stray_delivery', 'no_circulation']
-    corr_name = ('Fwd.Model(network/pubsub_fwd/crosswire_proxy/source_msg) vs Session.crosswire_pubsub/_crosswire_proxy/'
-                 '_publish_cfg/__init__ + Client/AgentComponent.advance/publish on an in-memory pubsub network')
+    header = 'From RP Require Import Fwd.Model Fwd.Oracle Fwd.Life Fwd.LifeOracle.'
+    clauses = ['exactly_once', 'not_back_to_origin', 'unflagged_stays_local', 'no_stray_delivery', 'no_circulation',
+               'only_owner_unregisters']
+    corr_name = ('Fwd.Model(network/pubsub_fwd/crosswire_proxy/source_msg) + Fwd.Life(life_run: connect/close/round) vs '
+                 'Session.crosswire_pubsub/_crosswire_proxy/_publish_cfg/__init__/_start_proxy/_connect_proxy/close + '
+                 'Proxy._register/_lookup/_unregister + Client/AgentComponent.advance/publish on an in-memory pubsub network')
     rule = ('corpus; every (module, from_proxy, origin, fwd) input of the real pubsub_fwd closures; every single post '
             '(side, channel, origin marker in {absent, own, other side, unknown}, fwd in {absent, False, True}, plus '
             'advance() and typed messages with default/explicit fwd) on networks of 1 client + 0..3 pilots; random '
             'batches of 1-5 posts on 0..6 pilots (thorough: ..12, all ordered pairs of raw posts on 2 pilots) under a '
-            'seed-determined transport schedule; non-trivial = a network with >= 1 pilot in which some message was '
-            'delivered on a side other than the one it was posted on')
+            'seed-determined transport schedule; life cycles: client + 2 pilots with every order of the three closes and '
+            'messages in between (external and embedded proxy), pilots that come too early / restart / come after the '
+            'client closed, 150 (thorough 2500) random histories of connect / close / round events over up to 4 (6) '
+            'pilots; non-trivial = a network with >= 1 pilot in which some message was delivered on a side other than '
+            'the one it was posted on (life cycles: such a message posted after some pilot has closed)')
     trusted = [
         'correspondence harness harness/c16.py: real Session.__init__/_init_primary/_init_agent_0/_publish_cfg/'
         '_crosswire_proxy/crosswire_pubsub and real Client/AgentComponent.advance/publish/register_* driven on stub '
         'sessions (config, registry, proxy registration, component start patched out); ru.zmq.Publisher/Subscriber '
         'replaced by an in-memory network that serialises with ru to_msgpack/from_msgpack per subscriber socket, '
         'matches topics by prefix and swallows callback exceptions like the listener thread; compared inside Coq',
-        'modelled, not verified: zmq delivery and ordering, the proxy process (proxy.py) and its bridges, heartbeats, '
+        'life-cycle cases: real Session._start_proxy/_run_proxy/_connect_proxy/close and real Proxy.__init__/_register/'
+        '_worker/_lookup/_unregister/stop; ru.zmq.Client/Server/PubSub/Queue and multiprocessing replaced by in-memory '
+        'stand-ins (synchronous request dispatch into the real request table, bridges whose stop() disposes what they '
+        'hold, worker in a thread), the component manager replaced by one that ends the side\'s components and local '
+        'bridges; a closed side\'s process is considered gone',
+        'modelled, not verified: zmq delivery and ordering, the real zmq bridges of the proxy and its monitor thread / '
+        'heartbeat timeout, messages in flight while a session closes (life-cycle events happen at silent moments), '
         'the task queues crosswired by the task manager, the contents of messages other than origin/fwd',
     ]
     assumptions = ['module names (client, pilot ids) are pairwise distinct',
                    'every connected side runs _crosswire_proxy exactly once against the same proxy channels',
+                   'one client session per session id; sessions connect and close while no message is in flight',
+                   'the proxy does not time the session out (heartbeats arrive)',
                    'zmq delivers every publication to every connected subscriber exactly once']
     widen_cases = 1500
     impl_timeout = 240          # a mutant that loops inside a callback must not stall the check
@@ -285,11 +484,73 @@ class C16(Prop):
             posts = [self._rand_post(rng, n) for _ in range(k)]
             sched = [rng.randint(0, 11) for _ in range(rng.randint(0, k * (n + 3)))]
             yield {'kind': 'net', 'n': n, 'posts': posts, 'sched': sched}
+        yield from self._life_cases(rng, tier)
         if tier == 'thorough':
             raws = [p for p in self._single_posts(2) if p['via'] == 'raw' and p['ch'] == 0]
             for a, b in itertools.product(raws, repeat=2):
                 for sched in ([], [1, 0, 2, 1, 3]):
                     yield {'kind': 'net', 'n': 2, 'posts': [a, b], 'sched': sched}
+
+    def _life_cases(self, rng, tier):
+        def P(at, fwd=True, ch=0):
+            return {'at': at, 'ch': ch, 'via': 'raw', 'origin': None, 'fwd': fwd}
+
+        def msgs(live):
+            # one flagged message from every live side, a state advance of the last pilot, an unflagged one
+            ps = [P(s, True, s % 2) for s in live]
+            if live and live[-1] != 0:
+                ps.append({'at': live[-1], 'ch': 1, 'via': 'advance', 'fwd': None, 'state': None})
+            if live:
+                ps.append(P(live[0], False))
+            return ps
+        # client, two pilots, every order of the three closes, messages in between
+        for emb in (False, True):
+            for order in itertools.permutations([0, 1, 2]):
+                live = [0, 1, 2]
+                ops = [['connect', 0], ['connect', 1], ['connect', 2], ['round', msgs(live), []]]
+                for k in order:
+                    ops.append(['close', k])
+                    live = [x for x in live if x != k]
+                    ops.append(['round', msgs(live), [1, 0, 2]])
+                yield {'kind': 'life', 'embedded': emb, 'ops': ops}
+        # a pilot that starts after another one has finished; pilots that come too early / too late
+        yield {'kind': 'life', 'embedded': False, 'ops': [
+            ['connect', 1], ['connect', 0], ['connect', 1], ['round', msgs([0, 1]), []], ['close', 1],
+            ['connect', 2], ['round', msgs([0, 2]), []], ['connect', 1], ['round', msgs([0, 2, 1]), [2, 2]],
+            ['close', 0], ['connect', 3], ['round', msgs([2, 1]), []], ['connect', 0]]}
+        nr = 150 if tier == 'quick' else 2500
+        for _ in range(nr):
+            m = rng.randint(1, 4 if tier == 'quick' else 6)
+            live, ops, done = [], [], False
+            if rng.random() < 0.92:
+                ops.append(['connect', 0])
+                live.append(0)
+            for _k in range(rng.randint(3, 11)):
+                r = rng.random()
+                cand = [s for s in range(m + 1) if s not in live]
+                if r < 0.28 and cand:
+                    s = rng.choice(cand)
+                    ops.append(['connect', s])
+                    if (s == 0 and not done) or (s != 0 and 0 in live):
+                        live.append(s)
+                elif r < 0.48 and live:
+                    pil = [s for s in live if s != 0]
+                    s = rng.choice(pil) if pil and rng.random() < 0.85 else rng.choice(live)
+                    ops.append(['close', s])
+                    live.remove(s)
+                    done = done or s == 0
+                else:
+                    posts = []
+                    for _j in range(rng.randint(1, 3)):
+                        p = self._rand_post(rng, m)
+                        if live and rng.random() < 0.9:
+                            p['at'] = rng.choice(live)
+                            if p['via'] == 'raw' and p['origin'] is not None and rng.random() < 0.5:
+                                p['origin'] = p['at']
+                        posts.append(p)
+                    sched = [rng.randint(0, 7) for _ in range(rng.randint(0, 6))]
+                    ops.append(['round', posts, sched])
+            yield {'kind': 'life', 'embedded': rng.random() < 0.5 and ops[0] == ['connect', 0], 'ops': ops}
 
     # ------------------------------------------------------------------ impl
     def impl_setup(self):
@@ -359,6 +620,7 @@ class C16(Prop):
         comp._log = comp._prof = self.quiet
         comp._publishers, comp._subscribers = {}, {}
         comp._cb_lock = threading.RLock()
+        comp._term, comp._inputs = threading.Event(), {}
         for ch, name in enumerate(CHANS):
             comp.register_publisher(name)
             comp.register_subscriber(name, self._recorder(k, ch))
@@ -425,7 +687,141 @@ class C16(Prop):
             m['uid'] = 'msg.%d' % i
             comp.publish(pubsub, m)
 
+    # ------------------------------------------------------------------ life cycle
+    def _life_session(self, k, proxy_url):
+        """A real Session for side k whose proxy hand-shake (_start_proxy / _connect_proxy),
+        _publish_cfg, _crosswire_proxy and close() are the real code."""
+        from radical.pilot.session import Session
+        ru = self.ru
+        quiet = self.quiet
+        name = modname(k)
+        made = {}
+
+        def init_cfg(s):
+            s._cfg = ru.Config(from_dict={'path': os.getcwd(), 'bridges': {}, 'components': {},
+                                          'proxy_url': None if not k else proxy_url})
+            s._rcfg, s._rcfgs = {}, {}
+            s._log = s._prof = s._rep = quiet
+
+        def start_registry(s):
+            s._reg_service = quiet
+
+        def connect_registry(s):
+            s._reg = Reg()
+
+        def start_components(s):
+            gen = NET.fresh()
+            made['bridges'] = []
+            for c in CHANS:
+                b = '%s.%d/%s' % (name, gen, c)
+                NET.subs.setdefault(b, [])
+                made['bridges'].append(b)
+                s._reg['bridges.%s' % c] = {'addr_pub': 'mem://pub/' + b, 'addr_sub': 'mem://sub/' + b}
+
+        env = {'RP_PILOT_ID': name} if k else {}
+        with mock.patch.object(Session, '_init_cfg_from_scratch', init_cfg), \
+             mock.patch.object(Session, '_init_cfg_from_dict', init_cfg), \
+             mock.patch.object(Session, '_start_registry', start_registry), \
+             mock.patch.object(Session, '_connect_registry', connect_registry), \
+             mock.patch.object(Session, '_init_rm', lambda s: None), \
+             mock.patch.object(Session, '_start_components', start_components), \
+             mock.patch.dict(os.environ, env):
+            os.environ.pop('RADICAL_PILOT_PROXY_URL', None)
+            if not k:
+                os.environ.pop('RP_PILOT_ID', None)
+                if proxy_url:
+                    # an existing proxy service is announced through the environment
+                    # (Session(proxy_url=..) returns from _start_proxy without registering)
+                    os.environ['RADICAL_PILOT_PROXY_URL'] = proxy_url
+                s = Session(uid='c16.session', cfg={}, _role=Session._PRIMARY)
+            else:
+                s = Session(uid='c16.session', cfg={}, _role=Session._AGENT_0)
+        comp = self._component(k, s)
+        s._cmgr = Cmgr(comp, made['bridges'])
+        return s, comp
+
+    def run_life(self, case):
+        """connect / round / close events on the real Session + Proxy code (see module doc)"""
+        global NET
+        import contextlib
+        import radical.pilot.proxy as rpp
+        ru = self.ru
+        NET = Net()
+        live, sides = [], {}
+        done = registered = False
+        fails = 0
+        next_id = 0
+        with contextlib.ExitStack() as st:
+            for tgt, attr, new in [(ru.zmq, 'Publisher', FakePublisher), (ru.zmq, 'Subscriber', FakeSubscriber),
+                                   (ru.zmq, 'Client', FakeClient), (ru.zmq, 'PubSub', FakeBridge),
+                                   (ru.zmq, 'Queue', FakeBridge), (ru, 'Logger', lambda *a, **k: self.quiet),
+                                   (ru.zmq.Server, '__init__', _server_init), (ru.zmq.Server, 'start', _server_start),
+                                   (ru.zmq.Server, 'wait', _server_wait), (rpp, 'mp', _FakeMP), (rpp, 'mt', _FakeMT)]:
+                st.enter_context(mock.patch.object(tgt, attr, new))
+            st.enter_context(mock.patch.object(ru.zmq.Server, 'addr', property(lambda self: self._addr)))
+            try:
+                url = None
+                if not case['embedded']:
+                    # a proxy service that exists before the session (proxy_url handed to the client)
+                    NET.actor = 'service'
+                    service = rpp.Proxy(path=os.getcwd())
+                    service.start()
+                    url = service.addr
+                for op in case['ops']:
+                    if op[0] == 'connect':
+                        k = op[1]
+                        if k in live or (k == 0 and (done or registered)):
+                            fails += 1
+                            continue
+                        NET.actor = k
+                        try:
+                            s, comp = self._life_session(k, url if (k == 0 or url) else 'mem://proxy/none')
+                        except (RuntimeError, AssertionError):
+                            # the hand-shake with the proxy failed: no session, the process ends
+                            NET.exit_side(k)
+                            fails += 1
+                            continue
+                        if k == 0:
+                            registered = True
+                            url = s._cfg.proxy_url
+                        sides[k] = (s, comp)
+                        live.append(k)
+                    elif op[0] == 'close':
+                        k = op[1]
+                        if k not in live:
+                            continue
+                        NET.actor = k
+                        sides[k][0].close()
+                        NET.exit_side(k)
+                        for b in sides[k][0]._cmgr.bridges:
+                            NET.kill(b)
+                        live.remove(k)
+                        if k == 0:
+                            done, registered = True, False
+                    else:
+                        _, posts, sched = op
+                        NET.actor = None
+                        for j, p in enumerate(posts):
+                            if p['at'] in live:
+                                self._post(sides[p['at']][1], next_id + j, p)
+                        next_id += len(posts)
+                        NET.run_round(len(posts) * (len(live) + 2), sched)
+            finally:
+                for srv in NET.servers.values():
+                    srv._term.set()
+                    for c in list(getattr(srv, '_clients', {}).values()):
+                        c['term'].set()
+                        c['proc'].join()
+        code = {'register': 0, 'lookup': 1, 'unregister': 2}
+        for a, _ in NET.requests:
+            if not isinstance(a, int):
+                raise AssertionError('request to the proxy from %r' % (a,))
+        return {'events': NET.events, 'npub': NET.npub, 'quiet': not NET.pending, 'errors': NET.errors,
+                'reqs': [[a, code[c]] for a, c in NET.requests], 'fails': fails}
+
     def run_impl(self, case):
+        if case['kind'] == 'life':
+            return self.run_life(case)
         if case['kind'] == 'fwd':
             me, fp = case['me'], case['fp']
             self._build(me)                     # sides 0..me exist; we talk to side `me` only
@@ -463,6 +859,15 @@ class C16(Prop):
 
     # ------------------------------------------------------------------ coq
     def coq_row(self, case, obs):
+        if case['kind'] == 'life':
+            ob = '(%s, %s, %s, %s, %s, %s)' % (
+                L.lst([ev_lit(e) for e in obs['events']]), L.nat(obs['npub']), L.boolean(obs['quiet']),
+                L.nat(obs['errors']), L.lst(['(%s, %s)' % (L.nat(a), REQ[c]) for a, c in obs['reqs']]),
+                L.nat(obs['fails']))
+            return '(c16_life_row %s %s)' % (ops_lit(case), ob)
+        return '(%s ++ [true])' % self._coq_row_static(case, obs)
+
+    def _coq_row_static(self, case, obs):
         if case['kind'] == 'fwd':
             o = obs['out']
             if obs['errors']:
@@ -476,6 +881,8 @@ class C16(Prop):
                                           L.lst([L.nat(k) for k in case['sched']]), ob)
 
     def model_show(self, case):
+        if case['kind'] == 'life':
+            return 'life_obs %s' % ops_lit(case)
         if case['kind'] == 'fwd':
             return 'pubsub_fwd %s %s %s' % (L.nat(case['me']), L.boolean(case['fp']),
                                             msg_lit(0, case['origin'], case['fwd']))
@@ -483,22 +890,61 @@ class C16(Prop):
                                        L.lst([L.nat(k) for k in case['sched']]))
 
     def describe(self, case):
+        if case['kind'] == 'life':
+            return dict(case, sides='0 = client (owner of the session id), k >= 1 = pilot.%04d' % 0 + ' + (k-1)')
         if case['kind'] == 'fwd':
             return dict(case, module=modname(case['me']))
         return dict(case, sides=[modname(k) for k in range(case['n'] + 1)])
 
     def nontrivial(self, case, obs):
+        if case['kind'] == 'life':
+            # some message posted AFTER a pilot closed was delivered on another side
+            at, late, i, closed = {}, set(), 0, False
+            for op in case['ops']:
+                if op[0] == 'close' and op[1] != 0:
+                    closed = True
+                elif op[0] == 'round':
+                    for p in op[1]:
+                        at[i] = p['at']
+                        if closed:
+                            late.add(i)
+                        i += 1
+            return any(e[2] in late and e[0] != at[e[2]] for e in obs['events'])
         if case['kind'] != 'net' or case['n'] < 1:
             return False
         at = {i: p['at'] for i, p in enumerate(case['posts'])}
         return any(e[0] != at.get(e[2]) for e in obs['events'])
 
     def signature(self, case, obs, clause):
+        if case['kind'] == 'life':
+            return '%s:Session.close/proxy life cycle' % clause
         if case['kind'] == 'fwd':
             return '%s:pubsub_fwd' % clause
         return '%s:Session.crosswire_pubsub' % clause
 
     def shrink(self, case):
+        if case['kind'] == 'life':
+            ops = case['ops']
+            if case['embedded']:
+                yield dict(case, embedded=False)
+            for i in range(len(ops)):
+                yield dict(case, ops=ops[:i] + ops[i + 1:])
+            for i, op in enumerate(ops):
+                if op[0] == 'round':
+                    for j in range(len(op[1])):
+                        if len(op[1]) > 1:
+                            yield dict(case, ops=ops[:i] + [['round', op[1][:j] + op[1][j + 1:], []]] + ops[i + 1:])
+                    if op[2]:
+                        yield dict(case, ops=ops[:i] + [['round', op[1], []]] + ops[i + 1:])
+                    for j, p in enumerate(op[1]):
+                        if p['via'] != 'raw' or p['ch'] != 0:
+                            f = p['fwd']
+                            if f is None:
+                                f = ((p['at'] != 0) if p['via'] == 'advance' else p['mtype'] in ('rpc_req', 'rpc_res')) \
+                                    if p['via'] != 'raw' else None
+                            q = {'at': p['at'], 'ch': 0, 'via': 'raw', 'origin': p.get('origin'), 'fwd': f}
+                            yield dict(case, ops=ops[:i] + [['round', op[1][:j] + [q] + op[1][j + 1:], op[2]]] + ops[i + 1:])
+            return
         if case['kind'] != 'net':
             return
         ps = case['posts']
@@ -531,6 +977,12 @@ class C16(Prop):
         for r in results:
             c = r['case']
             kinds[c['kind']] = kinds.get(c['kind'], 0) + 1
+            if c['kind'] == 'life':
+                for op in c['ops']:
+                    key = 'life/' + (op[0] if op[0] == 'round' else '%s %s' % (op[0], 'client' if op[1] == 0 else 'pilot'))
+                    vias[key] = vias.get(key, 0) + 1
+                if r['obs'] and self.nontrivial(c, r['obs']):
+                    crossed += 1
             if c['kind'] == 'net':
                 ns[str(c['n'])] = ns.get(str(c['n']), 0) + 1
                 for p in c['posts']:
